@@ -41,7 +41,7 @@ REAL = ["mokapot.parsers.pin", "mokapot.tabular_data", "mokapot.dataset.OnDiskPs
 STUBS = ["joblib.Parallel -> vsim.sched.SimParallel (seeded baton-passing threads)"]
 PROBES = ["col_chunks>=2", "row_chunks>=2", "identifier_own_chunk", "nan_planted", "malformed", "parquet",
           "workers>1", "switches>0", "case_mangled", "n_feat_mod_chunk==0", "multi_rowgroup", "path_parsed_before_with_other_table",
-          "parquet_dictionary_typed_strings", "parquet_written_from_sliced_frame"]
+          "parquet_dictionary_typed_strings", "parquet_written_from_sliced_frame", "missing_value_spelled_out"]
 
 
 def _mangle_case(rng, name):
@@ -190,6 +190,8 @@ def make_scenario(seed):
         # Parquet written by other tools: low-cardinality strings dictionary-typed; index metadata of a sliced pandas frame
         "dict_strings": fmt == "parquet" and rng.random() < 0.35,
         "index_start": rng.choice([1, 40, 10**6]) if fmt == "parquet" and rng.random() < 0.3 else 0,
+        # how a text file spells a missing value
+        "na_token": rng.choice(["", "", "NA", "N/A", "null", "NaN", "nan", "#N/A", "NULL"]) if fmt != "parquet" else "",
     }
 
 
@@ -212,7 +214,7 @@ def run_scenario(scn, workdir):
             pass
         path.unlink()
     world.materialise(table, path, scn["format"], scn.get("row_group"), dict_strings=bool(scn.get("dict_strings")),
-                      index_start=int(scn.get("index_start") or 0))
+                      index_start=int(scn.get("index_start") or 0), na_token=scn.get("na_token") or "")
     mal = scn["table"].get("malformed")
     n_rows = len(table["rows"])
     ccs = scn["knobs"]["CHUNK_SIZE_COLUMNS_FOR_DROP_COLUMNS"]
@@ -236,6 +238,7 @@ def run_scenario(scn, workdir):
         "parquet": int(scn["format"] == "parquet"),
         "parquet_dictionary_typed_strings": int(bool(scn.get("dict_strings"))),
         "parquet_written_from_sliced_frame": int(bool(scn.get("index_start"))),
+        "missing_value_spelled_out": int(bool(scn.get("na_token")) and bool(scn["table"].get("nan_cols"))),
         "workers>1": int(scn["max_workers"] > 1),
         "switches>0": int(sstats["switches"] > sstats["parallel_calls"]),
         "case_mangled": int(bool(scn["table"]["mangle"])),
